@@ -19,10 +19,14 @@ RULE = ("tables: every block over {-1,0,1/2,2} up to length 3 (4 thorough) x eve
         "None,0..len+1, lag lists built from reflection coefficients in (-1,1) (step-up), from data, arbitrary "
         "indefinite rational lists, singular lists (|k|=1, zero energy) and orders below/at/beyond len(r); "
         "kautocor / kcovar: exhaustive small blocks x orders plus random blocks of length 2..10(12), orders 1..len-1 "
-        "and beyond; call histories: 2-4 calls of kautocor / kcovar / levinson_durbin / acorr / lag_matrix on block objects "
-        "that are reused and refilled in place between calls (slice and item writes, same and other length, descending / "
-        "equal / ascending orders; tuples and fresh lists for contrast), every call compared with the per-call model on "
-        "the contents at that moment. Non-trivial = the call returned a filter of order >= 2 with at least two non-zero predictor "
+        "and beyond; call histories (harness/C10_hist.py): 2-4 calls of kautocor / kcovar / levinson_durbin / acorr / "
+        "lag_matrix / toeplitz in one process on block objects that are reused and refilled in place (list, deque, "
+        "len/getitem object; slice and item writes, same and other length) or rebuilt with equal contents (tuple, fresh "
+        "list), descending / equal / ascending / 0 / omitted orders, the caller modifying in place what earlier calls "
+        "returned (filt.error, numpoly items, lag lists, tables), arguments re-read after each call, every call form "
+        "(positional, order= / max_lag= / blk= / acdata= keywords, explicit None) through every alias by attribute and "
+        "item access, blocks without len() (TypeError) and the numpy strategies / lpc(...) dispatch (ImportError); "
+        "every call compared with the per-call model on the contents at that moment. Non-trivial = the call returned a filter of order >= 2 with at least two non-zero predictor "
         "coefficients (tables: at least 3 samples and 2 lags). Distinct = distinct case hash.")
 EXHAUSTIVE = {"quick": False, "thorough": False}
 trusted_base = [
@@ -146,6 +150,8 @@ def gen_tab(tier, rng):
   maxlen = 3 if tier == "quick" else 4
   for n in range(0, maxlen + 1):
     for blk in itertools.product(SMALL_T, repeat=n):
+      if tier == "quick" and n == 3 and rng.random() < 0.5:   # the full layer runs in the thorough tier
+        continue
       for lag in [None] + list(range(0, n + 2)):
         yield {"blk": [fr(v) for v in blk], "lag": lag, "tags": ["exh", "len=%d" % n, order_tag(lag, n)]}
   for _ in range(200 if tier == "quick" else 3000):
@@ -216,6 +222,8 @@ def gen_lev(tier, rng):
   maxlen = 3 if tier == "quick" else 4
   for n in range(0, maxlen + 1):
     for r in itertools.product(SMALL_L, repeat=n):
+      if tier == "quick" and n == 3 and rng.random() < 0.5:   # the full layer runs in the thorough tier
+        continue
       for order in [None] + list(range(0, n + 2)):
         yield {"r": [fr(v) for v in r], "order": order, "tags": ["exh", "len=%d" % n, order_tag(order, n)]}
   N = 1 if tier == "quick" else 10
@@ -272,6 +280,8 @@ def gen_kac(tier, rng):
   maxlen = 3 if tier == "quick" else 4
   for n in range(0, maxlen + 1):
     for blk in itertools.product(SMALL_L, repeat=n):
+      if tier == "quick" and n == 3 and rng.random() < 0.5:   # the full layer runs in the thorough tier
+        continue
       for order in [None] + list(range(0, n + 2)):
         yield {"blk": [fr(v) for v in blk], "order": order, "via": STRATS_A[(n + (order or 0)) % 4],
                "tags": ["exh", "len=%d" % n, order_tag(order, n)]}
@@ -330,6 +340,8 @@ def gen_kcv(tier, rng):
   maxlen = 3 if tier == "quick" else 4
   for n in range(0, maxlen + 1):
     for blk in itertools.product(SMALL_L, repeat=n):
+      if tier == "quick" and n == 3 and rng.random() < 0.5:   # the full layer runs in the thorough tier
+        continue
       for order in [None] + list(range(0, n + 2)):
         yield {"blk": [fr(v) for v in blk], "order": order, "via": STRATS_C[(n + (order or 0)) % 3],
                "tags": ["exh", "len=%d" % n, order_tag(order, n)]}
@@ -370,130 +382,15 @@ def lit_kcv(c, o):
 
 
 
-# ---------------------------------------------------------------------------------------------- call histories
-# Sequences of calls on block OBJECTS that are reused and refilled in place between calls (frames written into one
-# buffer).  The functions are pure: each call is compared with the model on the object's contents at that moment.
-HFNS = ["kac", "kcv", "lev", "acorr", "lagm"]
-HCOQ = {"kac": "HKac", "kcv": "HKcv", "lev": "HLev", "acorr": "HAcorr", "lagm": "HLagm"}
-
-
-def _hvals(rng, fn, n):
-  if fn == "lev":  # a lag list: dominant first lag so that most recursions run through
-    return [Fraction(rng.randrange(6, 13))] + [Fraction(rng.randrange(-5, 6), rng.choice([1, 1, 2])) for _ in range(n - 1)]
-  return [Fraction(rng.randrange(-4, 5), rng.choice([1, 1, 2])) for _ in range(n)]
-
-
-def _history(rng, fn, kind, orders, lens, other=None):
-  """One object (id 0) called with `fn` at the given orders; before call k > 0 it is refilled in place with new
-  contents of length lens[k].  `other` = (position, fn2): an extra call on a second object in between."""
-  steps, last = [], None
-  for k, (o, n) in enumerate(zip(orders, lens)):
-    how = "new" if k == 0 else rng.choice(["slice", "slice", "items"] if n == len(last) else ["slice"])
-    if k > 0 and rng.random() < 0.15:
-      how = "keep"
-    vals = last if how == "keep" else [fr(v) for v in _hvals(rng, fn, n)]
-    last = vals
-    steps.append({"fn": fn, "obj": 0, "kind": kind, "how": how, "vals": vals, "order": o})
-    if other is not None and other[0] == k:
-      steps.append({"fn": other[1], "obj": 1, "kind": "list", "how": "new",
-                    "vals": [fr(v) for v in _hvals(rng, other[1], n)], "order": rng.choice([1, 2])})
-  return steps
-
-
-def gen_hist(tier, rng):
-  # systematic core: every function x object kind x (descending, equal, ascending) order pairs x same / other length
-  for fn in HFNS:
-    for kind in ("list", "list", "tuple", "fresh"):
-      for orders in ([2, 1], [2, 2], [1, 2], [3, 1], [3, 2, 1], [None, 2], [2, None], [3, 3, 2, 2]):
-        for samelen in (True, False):
-          n0 = rng.randrange(4, 7)
-          lens = [n0 if samelen else rng.randrange(4, 8) for _ in orders]
-          yield {"steps": _history(rng, fn, kind, orders, lens),
-                 "tags": ["core", fn, kind, "samelen" if samelen else "difflen"]}
-  for _ in range(150 if tier == "quick" else 2500):
-    fn = rng.choice(["kac", "kac", "kac", "kcv", "kcv", "lev", "acorr", "lagm"])
-    kind = rng.choice(["list", "list", "list", "tuple", "fresh"])
-    k = rng.randrange(2, 5)
-    orders = [rng.choice([None, 1, 2, 2, 3, 3, 4]) for _ in range(k)]
-    if rng.random() < 0.5:
-      orders.sort(key=lambda o: -(o if o is not None else 5))
-    n0 = rng.randrange(3, 8)
-    lens = [n0 if rng.random() < 0.7 else rng.randrange(3, 8) for _ in range(k)]
-    other = (rng.randrange(k), rng.choice(HFNS)) if rng.random() < 0.3 else None
-    yield {"steps": _history(rng, fn, kind, orders, lens, other),
-           "tags": ["random", fn, kind, "interleaved" if other else "alone"]}
-
-
-def run_hist(c):
-  import audiolazy
-  fns = {"kac": audiolazy.lpc.kautocor, "kcv": audiolazy.lpc.kcovar, "lev": audiolazy.levinson_durbin,
-         "acorr": audiolazy.acorr, "lagm": audiolazy.lag_matrix}
-  objs, out = {}, []
-  for st in c["steps"]:
-    vals = [ExactQ(unfr(p)) for p in st["vals"]]
-    key = st["obj"]
-    if st["kind"] == "tuple":
-      objs[key] = tuple(vals)
-    elif st["kind"] == "fresh" or key not in objs:
-      objs[key] = list(vals)
-    elif st["how"] == "slice":
-      objs[key][:] = vals              # the same list object, refilled in place
-    elif st["how"] == "items":
-      for i, v in enumerate(vals):     # same length: element-wise writes into the same object
-        objs[key][i] = v
-    blk = objs[key]
-    assert [to_frac(v) for v in blk] == [unfr(p) for p in st["vals"]]
-    f = fns[st["fn"]]
-    call = (lambda: f(blk)) if st["order"] is None else (lambda: f(blk, st["order"]))
-    if st["fn"] in ("kac", "kcv", "lev"):
-      out.append(obs_filter(call))
-    else:
-      try:
-        r = call()
-        out.append({"val": [fr(to_frac(v)) for v in r] if st["fn"] == "acorr" else [[fr(to_frac(v)) for v in row] for row in r]})
-      except Exception as e:
-        out.append({"raise": type(e).__name__})
-  return {"outs": out}
-
-
-def lit_hist(c, o):
-  outs = o.get("outs")
-  if outs is None:  # the runner itself failed (timeout): no step can compare equal
-    outs = [{"raise": o.get("raise", "?")}] * len(c["steps"])
-  lits = []
-  for st, ob in zip(c["steps"], outs):
-    if st["fn"] in ("kac", "kcv", "lev"):
-      ho = "(HF %s)" % lit_fobs(ob)
-    elif st["fn"] == "acorr":
-      ho = "(HL %s)" % (qlist(ob["val"]) if "val" in ob else BOGUS)
-    else:
-      ho = "(HT %s)" % (("(TOk %s)" % L.lst([qlist(r) for r in ob["val"]])) if "val" in ob
-                        else "(TErr %s)" % L.string(ob["raise"][:60]))
-    lits.append("HS %s %s %s %s" % (HCOQ[st["fn"]], qlist(st["vals"]), lit_order(st["order"]), ho))
-  return L.lst(lits)
-
-
-def nontrivial_hist(c, o):
-  """an object refilled in place with OTHER contents and then called again with the same function at an order
-  that the earlier call already covered, and that call returned"""
-  seen = {}
-  ok = False
-  for st, ob in zip(c["steps"], o.get("outs", [])):
-    key = (st["obj"], st["fn"])
-    od = st["order"] if st["order"] is not None else len(st["vals"]) - 1
-    if key in seen and st["kind"] == "list" and st["how"] in ("slice", "items") and st["vals"] != seen[key][1] \
-       and od <= seen[key][0] and "raise" not in ob:
-      ok = True
-    seen[key] = (max(od, seen.get(key, (0,))[0]), st["vals"])
-  return ok
-
+import C10_hist as _hist   # call histories (harness/C10_hist.py)
 
 IMPORTS = "From AL Require Import C10.Model C10.Spec C10.Check."
 FAMILIES = {
   "tab": Family("tab", IMPORTS, "tcase", "corr_tab", "holds_tab", gen_tab, run_tab, lit_tab, nontrivial_tab),
   "tabz": Family("tabz", IMPORTS + " From AL Require Import C10.TabLib C10.Gen_Tables.", "zcase", "corr_tabz", "holds_tabz",
                  gen_tabz, run_tab, lit_tabz, nontrivial_tab),
-  "hist": Family("hist", IMPORTS, "hcase", "corr_hist", "holds_hist", gen_hist, run_hist, lit_hist, nontrivial_hist),
+  "hist": Family("hist", IMPORTS, "hcase", "corr_hist", "holds_hist", _hist.gen_hist, _hist.run_hist, _hist.lit_hist,
+                 _hist.nontrivial_hist),
   "lev": Family("lev", IMPORTS, "lcase", "corr_lev", "holds_lev", gen_lev, run_lev, lit_lev, nontrivial_filter),
   "kac": Family("kac", IMPORTS, "acase", "corr_kac", "holds_kac", gen_kac, run_kac, lit_kac, nontrivial_filter),
   "kcv": Family("kcv", IMPORTS, "ccase", "corr_kcv", "holds_kcv", gen_kcv, run_kcv, lit_kcv, nontrivial_filter),
